@@ -1,4 +1,4 @@
-CONSTANTS MaxDepth = 3
+CONSTANTS MaxDepth = 3 Via = "capture"
 INIT Init
 NEXT Next
 INVARIANT Emit
